@@ -554,13 +554,20 @@ func runC09(w *World) {
 				if b == nil || b.expires == 0 {
 					continue
 				}
+				// (a collection named by a RENAME applied during the rewrite is the open finding
+				// C09-rename-during-rewrite: its objects, deadlines included, may be another
+				// collection's)
+				dclass, dnote := "C09/deadline", ""
+				if renamed[k] {
+					dclass, dnote = "C09/recovered-rename", fmt.Sprintf("; renames during the rewrite touched %v", sortedBoolKeys(renamed))
+				}
 				if o.expires == 0 {
-					w.violate("C09/deadline", "object %s/%s lost its deadline in the rewrite", k, id)
+					w.violate(dclass, "object %s/%s lost its deadline in the rewrite%s", k, id, dnote)
 					return
 				}
 				// after a reload the remaining TTL is re-based on the reload instant
 				if remB, remA := time.Duration(b.expires-tBefore.UnixNano()), time.Duration(o.expires-time.Now().UnixNano()); remA < remB-250*time.Millisecond-time.Since(tBefore) {
-					w.violate("C09/deadline", "object %s/%s: remaining TTL %v before the rewrite+restart, %v after", k, id, remB, remA)
+					w.violate(dclass, "object %s/%s: remaining TTL %v before the rewrite+restart, %v after%s", k, id, remB, remA, dnote)
 					return
 				}
 			}
